@@ -51,7 +51,7 @@ func (c14) Info() core.Info {
 			"the re-read is skipped when the filtered PMT has no stream (that is C06's recorded finding about ReadPMT)",
 			"any number of output packets is accepted as long as headers match the inputs index-wise and the concatenated payload is the expected section followed only by 0xFF",
 		},
-		RequiredProbes: []string{"keep_none", "keep_some", "keep_all", "missing_some", "missing_all", "dup_requested", "pat_or_pmt_pid_requested", "multi_packet_in", "pointer_gt0", "af_in_header", "reread_ok", "empty_request", "remove_streams", "refused_call_before", "sibling_call_before", "section_plus_pointer_gt_1021", "requested_value_outside_pid_range", "remove_list_is_the_pmts_own_pid_list"},
+		RequiredProbes: []string{"pid_list_with_spare_capacity", "keep_none", "keep_some", "keep_all", "missing_some", "missing_all", "dup_requested", "pat_or_pmt_pid_requested", "multi_packet_in", "pointer_gt0", "af_in_header", "reread_ok", "empty_request", "remove_streams", "refused_call_before", "sibling_call_before", "section_plus_pointer_gt_1021", "requested_value_outside_pid_range", "remove_list_is_the_pmts_own_pid_list"},
 	}
 }
 
@@ -359,7 +359,18 @@ func (c14) Exec(script interface{}, c *core.Ctx) {
 		}
 		c.Probe("refused_call_before")
 	}
-	keep := append([]int(nil), s.Keep...)
+	// the request is a slice of a longer array of the caller's (spare capacity behind it,
+	// filled with values of the caller's own): the call has no business writing there
+	spare := []int{0, 1, 3}[(s.Out.Salt/3)%3]
+	backing := make([]int, len(s.Keep)+spare)
+	copy(backing, s.Keep)
+	for i := len(s.Keep); i < len(backing); i++ {
+		backing[i] = -7001 - i
+	}
+	keep := backing[:len(s.Keep)]
+	if spare > 0 && len(s.Keep) > 0 {
+		c.Probe("pid_list_with_spare_capacity")
+	}
 	var out []*packet.Packet
 	var ferr error
 	if !c.Call("psi.FilterPMTPacketsToPids", func() { out, ferr = psi.FilterPMTPacketsToPids(in, keep) }) {
@@ -375,6 +386,12 @@ func (c14) Exec(script interface{}, c *core.Ctx) {
 	for i := range keep {
 		if keep[i] != s.Keep[i] {
 			c.Fail("input_untouched", "filter_modified_pid_list", keep, s.Keep)
+			return
+		}
+	}
+	for i := len(s.Keep); i < len(backing); i++ {
+		if backing[i] != -7001-i {
+			c.Fail("input_untouched", "filter_wrote_behind_the_pid_list", backing[i], -7001-i)
 			return
 		}
 	}
